@@ -59,6 +59,12 @@ CHECKS = {
         text="(a) every run_to_completion of generated + hand-written programs (activated flows finishing/failing immediately, restart label, recursion with a wait) stays below a bound linear in compiled elements x live instances (hard cap and wall-clock alarm detect non-termination); (b) 9 fault kinds (bad expressions in assignment, condition, send/start/match arguments, invalid regex, priority, index) x 6 statement positions: nothing escapes process_events, a ColangError is produced, and witness flows in other loops produce exactly the outputs of the run where the statement is an explicit abort, for the same and later events.",
         note="trusted: step counting wrappers, program templates; StepBound constants fixed from the corpus maximum with slack; exhaustive exploration of histories at spec level is ColangSM's job",
         design_ref="6/C10"),
+    "C11": dict(
+        category="translation_validation", engine="Continuation",
+        technique="differential execution of the real interpreter at every cut point (live vs JSON save/restore vs elapsed clean-up age, scripted clock and tie-breaks), outgoing events canonicalised and judged equal by TLC (Continuation.tla); plus the repository's direct-API tests re-run under both transformations",
+        text="Every cut point of seeded histories (external and action events) of generated programs and hand-written programs holding sets, regexes, nested containers and flow/action/event references: the continuation after json_to_state(state_to_json(s)) and after the 5 s clean-up age must produce exactly the live outgoing events (fresh ids up to renaming), and saving must not fail. The repository's own tests/v2_x *_mechanics tests must still pass with a JSON round trip / elapsed age before every event.",
+        note="trusted: id canonicalisation, scripted clock (datetime replaced inside statemachine), cut points only at API boundaries; the product (self-composition) specification of ageing is future ColangSM work, so the level claimed is translation validation, not model checking",
+        design_ref="6/C11"),
     "C12": dict(
         category="model_checking", engine="CFG",
         technique="TLC reachability over the control-flow graph of every compiled flow (the real compiler's FlowConfig.elements exported as JSON): CFG.tla tracks position, open scopes, failure-handler stack and forks along every path; Colang 1.0 offsets by V1Closed.tla",
